@@ -28,11 +28,97 @@ pub fn cfg_full(n: u8, full: bool, ss: (u8, u8), m: MC, t: TC, p: CP) -> YuvConf
     }
 }
 
+thread_local! {
+    static SHAPE_OVERRIDE: std::cell::Cell<Option<(usize, usize)>> = const { std::cell::Cell::new(None) };
+}
+/// Run `f` with a fixed image shape for batches of exactly `w*h` pixels (replay / minimisation).
+pub fn with_shape<R>(shape: (usize, usize), f: impl FnOnce() -> R) -> R {
+    let prev = SHAPE_OVERRIDE.with(|s| s.replace(Some(shape)));
+    let r = f();
+    SHAPE_OVERRIDE.with(|s| s.set(prev));
+    r
+}
+
+/// Shapes tried, smallest first, when a violation does not reproduce on a 1x1 image.
+pub const SMALL_SHAPES: [(usize, usize); 14] = [(1, 1), (1, 2), (2, 1), (1, 3), (3, 1), (2, 2), (1, 4), (4, 1), (1, 5), (2, 3), (3, 3), (1, 7), (7, 1), (2, 4)];
+
+/// Post-process the violations a batch check just recorded (indices in `[base, base+n)`): find the
+/// smallest image that still shows the violation — the single pixel, else the pixel replicated into
+/// a small shape, else the whole batch in its original shape — and store it in the replay case
+/// (`shape`, and `batch` when replication is not enough). `per_pixel` items make one pixel.
+pub fn refine_violations<I: Clone>(
+    acc: &mut crate::explore::Acc,
+    base: u64,
+    items: &[I],
+    per_pixel: usize,
+    run: &dyn Fn(&mut crate::explore::Acc, &[I]),
+    to_json: &dyn Fn(&[I]) -> serde_json::Value,
+) {
+    let n = items.len() as u64;
+    let keys: Vec<String> = acc
+        .viols
+        .iter()
+        .filter(|(_, v)| v.index >= base && v.index < base + n && v.case.get("shape").is_none())
+        .map(|(k, _)| k.clone())
+        .collect();
+    for k in keys {
+        let i = ((acc.viols[&k].index - base) as usize / per_pixel) * per_pixel;
+        let one: Vec<I> = items[i..(i + per_pixel).min(items.len())].to_vec();
+        let mut found = None;
+        for &(w, h) in SMALL_SHAPES.iter() {
+            let mut rep: Vec<I> = Vec::with_capacity(w * h * per_pixel);
+            for _ in 0..w * h {
+                rep.extend(one.iter().cloned());
+            }
+            let mut scratch = crate::explore::Acc::default();
+            with_shape((w, h), || run(&mut scratch, &rep));
+            if scratch.viols.contains_key(&k) {
+                found = Some((w, h));
+                break;
+            }
+        }
+        let v = acc.viols.get_mut(&k).unwrap();
+        match found {
+            Some((w, h)) => {
+                v.case["shape"] = serde_json::json!([w, h]);
+                if (w, h) != (1, 1) {
+                    v.detail = format!("{} [pixel replicated into a {w}x{h} image]", v.detail);
+                }
+            }
+            None => {
+                let npx = (items.len() + per_pixel - 1) / per_pixel;
+                let (w, h) = shape_of(npx);
+                v.case["shape"] = serde_json::json!([w, h]);
+                v.case["batch"] = to_json(items);
+                v.detail = format!("{} [needs its whole {w}x{h} batch image to show]", v.detail);
+            }
+        }
+    }
+}
+
+/// Replay side of [`refine_violations`]: rebuild the item list and shape stored in a case.
+pub fn replay_items<I: Clone>(case: &serde_json::Value, one: Vec<I>, from_json: &dyn Fn(&serde_json::Value) -> Vec<I>) -> (Vec<I>, (usize, usize)) {
+    let shape = case.get("shape").and_then(|s| s.as_array()).map(|a| (a[0].as_u64().unwrap() as usize, a[1].as_u64().unwrap() as usize)).unwrap_or((1, 1));
+    if let Some(b) = case.get("batch") {
+        return (from_json(b), shape);
+    }
+    let mut v = Vec::new();
+    for _ in 0..shape.0 * shape.1 {
+        v.extend(one.iter().cloned());
+    }
+    (v, shape)
+}
+
 /// Image shape for a batch of `len` independent pixels. Batches are not always `len x 1` rows:
 /// short batches become single columns or two-column images, long ones get 2, 3, 5 or 7 rows when
 /// the length allows, so that per-row / per-column code paths (row offsets, "same chroma position
 /// as the previous pixel" shortcuts, one-sample-wide planes) are exercised by every batch check.
 pub fn shape_of(len: usize) -> (usize, usize) {
+    if let Some((w, h)) = SHAPE_OVERRIDE.with(|s| s.get()) {
+        if w * h == len {
+            return (w, h);
+        }
+    }
     if len <= 1 {
         return (len.max(1), 1);
     }
